@@ -141,14 +141,14 @@ func H_Codec_RoundTrip() {
 }
 
 type tagged struct {
-	Name   string            `json:"name"`
-	Skip   string            `json:"-"`
-	Opt    string            `json:"opt,omitempty"`
-	Num    int               `json:"num,string"`
-	Flag   bool              `json:"flag"`
-	Plain  []string          `json:"list"`
-	M      map[string]string `json:"m,omitempty"`
-	Inner  *inner            `json:"inner,omitempty"`
+	Name  string            `json:"name"`
+	Skip  string            `json:"-"`
+	Opt   string            `json:"opt,omitempty"`
+	Num   int               `json:"num,string"`
+	Flag  bool              `json:"flag"`
+	Plain []string          `json:"list"`
+	M     map[string]string `json:"m,omitempty"`
+	Inner *inner            `json:"inner,omitempty"`
 	embedded
 	unexported int
 }
